@@ -33,13 +33,15 @@ type Server struct {
 	supportsConfiguration bool
 	payeeTemplatesCache   sync.Map // map[protocol.DocumentURI]map[string][]analyzer.PostingTemplate
 	publishMu             sync.Mutex
+	analysisSeq           map[protocol.DocumentURI]uint64 // guarded by publishMu
 	configMu              sync.Mutex
 }
 
 func NewServer() *Server {
 	srv := &Server{
-		analyzer: analyzer.New(),
-		loader:   include.NewLoader(),
+		analyzer:    analyzer.New(),
+		loader:      include.NewLoader(),
+		analysisSeq: make(map[protocol.DocumentURI]uint64),
 	}
 	defaults := defaultServerSettings()
 	srv.cliClient = cli.NewClient(defaults.CLI.Path, defaults.CLI.Timeout)
@@ -188,7 +190,8 @@ func (s *Server) DidOpen(ctx context.Context, params *protocol.DidOpenTextDocume
 			s.loader.InvalidateFile(path)
 		}
 	}
-	go s.publishDiagnostics(ctx, params.TextDocument.URI, params.TextDocument.Text)
+	seq := s.nextAnalysisSeq(params.TextDocument.URI)
+	go s.publishDiagnosticsSeq(ctx, params.TextDocument.URI, params.TextDocument.Text, seq)
 	return nil
 }
 
@@ -214,7 +217,8 @@ func (s *Server) DidChange(ctx context.Context, params *protocol.DidChangeTextDo
 				s.loader.InvalidateFile(path)
 			}
 		}
-		go s.publishDiagnostics(ctx, params.TextDocument.URI, content)
+		seq := s.nextAnalysisSeq(params.TextDocument.URI)
+		go s.publishDiagnosticsSeq(ctx, params.TextDocument.URI, content, seq)
 	}
 	return nil
 }
@@ -226,6 +230,7 @@ func isFullChange(r protocol.Range) bool {
 
 func (s *Server) DidClose(ctx context.Context, params *protocol.DidCloseTextDocumentParams) error {
 	s.documents.Delete(params.TextDocument.URI)
+	s.nextAnalysisSeq(params.TextDocument.URI)
 	tokenCache.delete(params.TextDocument.URI)
 	s.payeeTemplatesCache.Clear()
 	// The buffer is gone: the workspace goes back to what is on disk.
@@ -260,7 +265,20 @@ func (s *Server) DidSave(ctx context.Context, params *protocol.DidSaveTextDocume
 	return nil
 }
 
+// nextAnalysisSeq numbers the analyses started for a document; only the
+// result of the latest one may be stored and published.
+func (s *Server) nextAnalysisSeq(docURI protocol.DocumentURI) uint64 {
+	s.publishMu.Lock()
+	defer s.publishMu.Unlock()
+	s.analysisSeq[docURI]++
+	return s.analysisSeq[docURI]
+}
+
 func (s *Server) publishDiagnostics(ctx context.Context, docURI protocol.DocumentURI, content string) {
+	s.publishDiagnosticsSeq(ctx, docURI, content, s.nextAnalysisSeq(docURI))
+}
+
+func (s *Server) publishDiagnosticsSeq(ctx context.Context, docURI protocol.DocumentURI, content string, seq uint64) {
 	if s.client == nil {
 		return
 	}
@@ -304,13 +322,15 @@ func (s *Server) publishDiagnostics(ctx context.Context, docURI protocol.Documen
 		})
 	}
 
-	// Analyses of different versions of a document run concurrently and may
-	// finish in any order. The result is stored and published only while its
-	// content is still the current one, and check and publish happen under one
-	// lock, so the latest version is always the last to be published.
+	// Analyses of a document run concurrently and may finish in any order. A
+	// result is stored and published only if no newer analysis was started for
+	// the document (comparing contents is not enough: the same text may be
+	// analysed again after an included file changed), and check and publish
+	// happen under one lock, so the latest analysis is always the last to be
+	// published.
 	s.publishMu.Lock()
 	defer s.publishMu.Unlock()
-	if current, ok := s.GetDocument(docURI); !ok || current != content {
+	if s.analysisSeq[docURI] != seq {
 		return
 	}
 	s.resolved.Store(docURI, resolved)
